@@ -48,9 +48,17 @@ for name, m in req["maps"].items():
                  "N_pg_rep2": call(g.Get_N_pg_rep, MT, 2), "N_pg_rep3": call(g.Get_N_pg_rep, MT, 3),
                  "dN_e_pg": call(g.Get_dN_e_pg, MT), "ddN_e_pg": call(g.Get_ddN_e_pg, MT),
                  "jacobian_e_pg": call(g.Get_jacobian_e_pg, MT), "wJ_e_pg": call(g.Get_weightedJacobian_e_pg, MT)}
+    # the evaluator applied to the tabulated local coordinates exactly as Get_Local_Coords returns
+    # them (integer arrays for several elements)
+    locraw = g.Get_Local_Coords()
+    d["at_nodes"] = {t: call(lambda t=t: type(g)._Eval_Functions(getattr(g, t)(), locraw)) for t in ["_N", "_dN", "_ddN", "_dddN", "_ddddN"]}
+    # same group after its coordinates were rescaled in place by the factor k (second use of the tables)
+    k = float(m.get("k", 1.0))
+    g.coord = coords * k
+    d["rescaled"] = {mt: {"dN_e_pg": call(g.Get_dN_e_pg, getattr(MatrixType, mt)), "jacobian_e_pg": call(g.Get_jacobian_e_pg, getattr(MatrixType, mt))} for mt in mts}
     out["lagrange"][name] = d
 
-for name, (a, b) in req["herm"].items():
+for name, (a, b, kk) in req["herm"].items():
     k = int(name[-1])
     gid, nPe, dim = GroupElemFactory.DICT_ELEMTYPE[getattr(ElemType, "SEG%d" % k)][:3]
     cls = getattr(_beam, name)
@@ -64,5 +72,7 @@ for name, (a, b) in req["herm"].items():
     for t in ["N", "dN", "ddN", "dddN"]:
         d[t + "_pg"] = call(getattr(g, "Get_Hermitian_%s_pg" % t))
         d[t + "_e_pg"] = call(getattr(g, "Get_Hermitian_%s_e_pg" % t))
+    g.coord = coords * kk
+    d["rescaled"] = {t + "_e_pg": call(getattr(g, "Get_Hermitian_%s_e_pg" % t)) for t in ["N", "dN", "ddN", "dddN"]}
     out["hermite"][name] = d
 json.dump(out, sys.stdout)
